@@ -105,7 +105,7 @@ Fixpoint first_free (fuel : nat) (iv : list (Z * Z)) (r : Z) : Z :=
 
 (* ------------------------------------------------------------------ V level *)
 Record vgobj := mkG { g_n : Z; g_name : Z; g_class : Z; g_stored : bool }.
-Record fdef := mkF { f_idx : Z; f_nlen : Z; f_size : Z }.
+Record fdef := mkF { f_idx : Z; f_nlen : Z; f_size : Z; f_order : Z; f_tsz : Z }.   (* f_size = f_order * f_tsz *)
 Record vsobj := mkS { s_defs : list fdef; s_nf : Z; s_iv : Z; s_fnames : list Z; s_nrec : Z; s_pos : Z;
                       s_name : Z; s_class : Z; s_stored : bool; s_w : bool; s_aid : bool }.
 Record vst := mkV { vgs : list vgobj; vgslot : list (Z * Z); vss : list vsobj; vsslot : list (Z * Z) }.
@@ -361,7 +361,7 @@ Definition step_v (h : hst) (v : vst) (o : op) : hst * vst * res :=
           else
             let sz := ntsize ty in
             if (1 <=? order) && (order <=? MAX_ORDER) && (0 <? sz) && (sz * order <=? MAX_FIELD_SIZE)
-            then (h, with_vs v i (mkS (s_defs s ++ [mkF idx nlen (sz * order)]) (s_nf s) (s_iv s) (s_fnames s) (s_nrec s)
+            then (h, with_vs v i (mkS (s_defs s ++ [mkF idx nlen (sz * order) order sz]) (s_nf s) (s_iv s) (s_fnames s) (s_nrec s)
                                       (s_pos s) (s_name s) (s_class s) (s_stored s) (s_w s) (s_aid s)), ROk [])
             else (h, v, RFail [])
       | None => (h, v, RUnspec) end
@@ -530,3 +530,40 @@ Definition step (st : state) (o : op) : state * res :=
           else match step_v h v o with (h', v', r) => ((h', v', d), r) end
       end
   end.
+
+(* ------------------------------------------------------------------ site specifications (unbounded integers) *)
+(** what each guarded site must compute, stated without any machine width: [None] = the request is refused *)
+Definition s_getdiskblock (eof size : Z) : option (Z * Z) :=
+  if (size <? 0) || (INT32_MAX <? eof + size) then None else Some (eof, eof + size).
+
+(** ordinary Hwrite of [len] bytes at [pos]: (position, element length, end of file) afterwards *)
+Definition s_hwrite (appendable at_eof : bool) (pos len off elen eof : Z) : option (Z * Z * Z) :=
+  if (len <=? 0) || (INT32_MAX <? pos + len) then None
+  else if pos + len <=? elen then Some (pos + len, elen, eof)
+  else if negb appendable then None
+  else if negb at_eof then None
+  else if INT32_MAX <? off + pos + len then None
+  else Some (pos + len, pos + len, off + pos + len).
+
+Definition s_endoff (blk_end : Z) (dds : list (Z * Z)) : Z :=
+  fold_left (fun e p => Z.max e (fst p + snd p)) dds (Z.max 0 blk_end).
+
+Definition s_vinsertpair (n : Z) : option Z := if n <? UINT16_MAX then Some (n + 1) else None.
+Definition s_vsetname (len : Z) : option Z := if len <=? UINT16_MAX then Some len else None.
+Definition s_vssetname (len : Z) : Z := Z.min len VSNAMELENMAX.
+Definition s_vsfdefine (size order : Z) : option (Z * Z) :=
+  if (1 <=? order) && (order <=? MAX_ORDER) && (0 <? size) && (size * order <=? MAX_FIELD_SIZE)
+  then Some (size, order) else None.
+Definition s_field_size (f : option (Z * Z)) : Z := match f with Some (order, isz) => order * isz | None => SIZE_FLOAT32 end.
+Fixpoint s_record_size (fs : list (option (Z * Z))) (acc : Z) : option Z :=
+  match fs with
+  | [] => Some acc
+  | f :: t => if acc + s_field_size f <=? MAX_FIELD_SIZE then s_record_size t (acc + s_field_size f) else None
+  end.
+Definition s_vssetfields (fs : list (option (Z * Z))) : option (Z * Z) :=
+  if VSFIELDMAX <? Z.of_nat (length fs) then None
+  else match s_record_size fs 0 with Some t => Some (Z.of_nat (length fs), t) | None => None end.
+Definition s_product (a b : Z) : option Z := if a * b <=? INT32_MAX then Some (a * b) else None.
+Definition s_newref_next (maxref : Z) : option Z := if maxref <? MAX_REF then Some (maxref + 1) else None.
+Definition s_tagnewref (next : Z) : option Z := if (0 <=? next) && (next <=? MAX_REF) then Some next else None.
+Definition s_sdcreate_ok (rank namelen : Z) : bool := (rank <=? H4_MAX_VAR_DIMS) && (namelen <=? H4_MAX_NC_NAME).
